@@ -3496,7 +3496,7 @@ public:
     SBEPP_CPP20_CONSTEXPR void push_back(value_type value) const noexcept
     {
         const auto current_size = size();
-        resize(current_size + 1, default_init);
+        grow_to(static_cast<std::size_t>(current_size) + 1);
         (*this)[current_size] = value;
     }
 
@@ -3536,7 +3536,7 @@ public:
     {
         SBEPP_ASSERT(pos >= begin() && pos <= end());
         const auto old_end = end();
-        resize(size() + 1, default_init);
+        grow_to(static_cast<std::size_t>(size()) + 1);
         std::copy_backward(pos, old_end, end());
         *pos = value;
         return pos;
@@ -3549,7 +3549,7 @@ public:
     {
         SBEPP_ASSERT(pos >= begin() && pos <= end());
         const auto old_end = end();
-        resize(size() + count, default_init);
+        grow_to(static_cast<std::size_t>(size()) + count);
         std::copy_backward(pos, old_end, end());
         std::fill_n(pos, count, value);
         return pos;
@@ -3597,7 +3597,7 @@ public:
     {
         auto begin = data_unchecked();
         const auto new_end = std::copy(first, last, begin);
-        resize(new_end - begin, default_init);
+        grow_to(static_cast<std::size_t>(new_end - begin));
     }
 
     //! @brief Replaces the contents of the container with the elements from
@@ -3644,7 +3644,7 @@ public:
     {
         SBEPP_ASSERT(str != nullptr);
         const auto length = string_length(str);
-        resize(length, default_init);
+        grow_to(length);
         std::copy_n(str, length, begin());
     }
 
@@ -3667,10 +3667,18 @@ public:
 #else
         const auto new_end = std::copy(std::begin(r), std::end(r), begin);
 #endif
-        resize(new_end - begin, default_init);
+        grow_to(static_cast<std::size_t>(new_end - begin));
     }
 
 private:
+    // sets size to `count` which, unlike `resize()` parameter, is not yet
+    // narrowed to `size_type` and has to be representable by it
+    SBEPP_CPP20_CONSTEXPR void grow_to(const std::size_t count) const noexcept
+    {
+        SBEPP_ASSERT(count <= (std::numeric_limits<size_type>::max)());
+        resize(static_cast<size_type>(count), default_init);
+    }
+
     SBEPP_CPP14_CONSTEXPR pointer data_checked() const noexcept
     {
         SBEPP_SIZE_CHECK(
@@ -3717,7 +3725,7 @@ private:
     {
         const auto in_size = std::distance(first, last);
         auto old_end = end();
-        resize(size() + in_size, default_init);
+        grow_to(size() + static_cast<std::size_t>(in_size));
         std::copy_backward(pos, old_end, end());
         std::copy(first, last, pos);
         return pos;
